@@ -18,7 +18,7 @@ for pid in ids:
         "engine": "verus",
         "level_claimed": {"category": "proof", "text": pc["level_text"], "design_ref": pc.get("design_ref", "DESIGN.md §10 " + pid)},
         "level_note": pc["level_note"],
-        "technique": pc.get("technique", "contract-based deductive verification: Verus discharges requires/ensures/loop invariants on functions re-extracted from /repo on every run"),
+        "technique": pc.get("technique", "contract-based deductive verification: Verus discharges requires/ensures/loop invariants on functions re-extracted from /repo on every run (bounded stand-in only where the contracts are undecided on a changed tree: stored client scenarios run against the real crate, labelled bounded)"),
     })
 na = []
 for pid in ids:
